@@ -86,6 +86,24 @@ def check(run):
                     jug.task.Task.store = None
                     continue
                 got_keys = [R['hash_key'].get(t.hash(), -1) for t in tasks]
+                # asking a task twice gives the same answer (the worker loop polls can_run() over and over while it waits)
+                _saved_store = jug.task.Task.store
+                jug.task.Task.store = s
+                for t in tasks:
+                    try:
+                        d1 = sorted(x.hash() for x in t.dependencies() if hasattr(x, 'hash'))
+                        c1 = bool(t.can_run())
+                        d2 = sorted(x.hash() for x in t.dependencies() if hasattr(x, 'hash'))
+                        c2 = bool(t.can_run())
+                        c3 = bool(t.can_run())
+                    except Exception as e:
+                        run.fail('poll-raises', 'dependencies() / can_run() of task %s raised %s: %s (present %s)' % (t.name, type(e).__name__, e, S), rp)
+                        break
+                    if d1 != d2 or not (c1 == c2 == c3):
+                        run.fail('poll-not-idempotent', 'task %s (key %s), store state %s: dependencies() reports %d tasks the first time and %d the second; can_run() answers %s, %s, %s on three consecutive calls '
+                                 'with nothing changed in between' % (t.name, R['hash_key'].get(t.hash(), '?'), S, len(d1), len(d2), c1, c2, c3), rp)
+                        break
+                jug.task.Task.store = _saved_store
                 collapsed = [c for c in inner_of if c in S and c in got_keys]
                 expanded = [c for c in inner_of if c not in S and c in got_keys]
                 run.case((pi, tuple(S), run.seed), nontrivial=bool(collapsed) and bool(expanded))
